@@ -19,3 +19,12 @@ def akai_dir_run_reaches_table_end(what, case, detail):
     """D11: a reserved-flag run that includes the very last SAT entry is never installed."""
     return what == "AKAI directory run resolves exactly" and isinstance(case, dict) \
         and case.get("run_reaches_table_end") is True
+
+
+def stereo_stem_collision(what, case, detail):
+    """D6: a merged stereo pair is named after its stem, which equals another output name of
+    the same directory (a sibling called like the stem, or a second pair with the same stem
+    and a different separator)."""
+    return isinstance(case, dict) and case.get("d6_shape") is True and what in (
+        "output file names of one directory pairwise distinct",
+        "number of files on disk equals number of Exported lines (no two samples to one path)")
